@@ -16,13 +16,11 @@ import (
 	"encoding/json"
 	"fmt"
 	"math/rand"
-	"reflect"
 	"sort"
 	"sync"
 	"sync/atomic"
 	"testing"
 	"time"
-	"unsafe"
 
 	"github.com/zeromicro/go-zero/core/timex"
 )
@@ -61,41 +59,8 @@ func (s *c01Src) Int63() int64 {
 	return v
 }
 
-func c01Steer(t testing.TB, gb *googleBreaker, src rand.Source) {
-	v := reflect.ValueOf(gb.proba).Elem().FieldByName("r")
-	if !v.IsValid() || v.Type() != reflect.TypeOf((*rand.Rand)(nil)) {
-		t.Fatal("c01: mathx.Proba has no field r *rand.Rand (driver needs updating)")
-	}
-	reflect.NewAt(v.Type(), unsafe.Pointer(v.UnsafeAddr())).Elem().Set(reflect.ValueOf(rand.New(src)))
-}
-
-// ---------------------------------------------------------------- white-box accessor
-
-func c01Google(t testing.TB, b Breaker) *googleBreaker {
-	cb, ok := b.(*circuitBreaker)
-	if !ok {
-		t.Fatalf("c01: unexpected breaker type %T", b)
-	}
-	lt, ok := cb.throttle.(loggedThrottle)
-	if !ok {
-		t.Fatalf("c01: unexpected throttle type %T", cb.throttle)
-	}
-	gb, ok := lt.internalThrottle.(*googleBreaker)
-	if !ok {
-		t.Fatalf("c01: unexpected internal throttle type %T", lt.internalThrottle)
-	}
-	return gb
-}
-
-func c01Sums(gb *googleBreaker) []int64 {
-	var s, f, d int64
-	gb.stat.Reduce(func(b *bucket) {
-		s += b.Success
-		f += b.Failure
-		d += b.Drop
-	})
-	return []int64{s, f, d}
-}
+// c01Steer / c01Open / sums: see zz_verif_c01_wb_test.go (white-box, tag !verifnowb) and
+// zz_verif_c01_nowb_test.go (black-box stand-ins used when the white-box file no longer compiles).
 
 // ---------------------------------------------------------------- harness
 
@@ -141,7 +106,7 @@ type c01H struct {
 	t      *testing.T
 	em     *verifEmitter
 	b      Breaker
-	gb     *googleBreaker
+	wb     c01WB
 	src    *c01Src
 	sig    chan c01Sig
 	open   map[int]*c01Call // parked calls / unresolved promises
@@ -170,11 +135,14 @@ func c01NewNamed(t *testing.T, em *verifEmitter, startMs int64, steer, eager boo
 	} else {
 		h.b = NewBreaker()
 	}
-	h.gb = c01Google(t, h.b)
+	h.wb = c01Open(h.b)
 	if steer {
 		h.src = &c01Src{rnd: verifRand(startMs)}
 		h.src.mode.Store(2)
-		c01Steer(t, h.gb, h.src)
+		if !h.wb.steer(h.src) {
+			// the coin cannot be loaded on this tree: the breaker's own random source decides
+			h.src, steer = nil, false
+		}
 	}
 	// fair: the breaker's own random source is untouched (the spec's counting clause applies)
 	em.Emit(verifEv{"e": "reset", "t": startMs, "fair": !steer && !eager, "eager": eager})
@@ -192,7 +160,9 @@ func (h *c01H) adv(d int) {
 }
 
 func (h *c01H) obs() {
-	h.em.Emit(verifEv{"e": "obs", "w": c01Sums(h.gb)})
+	if w, ok := h.wb.sums(); ok {
+		h.em.Emit(verifEv{"e": "obs", "w": w})
+	}
 }
 
 func (h *c01H) newCall(op c01Op) *c01Call {
